@@ -332,14 +332,19 @@ class ConnWorld:
             self._model_flush()
             for mo in m.values():
                 mo.dirty = mo.dirty     # still part of the transaction
-            snap = ({n: mo.copy() for n, mo in m.items()}, self.root_dirty)
+            snap = ({n: mo.copy() for n, mo in m.items()}, self.root_dirty,
+                    self.joined)
             self.handles.append((sp, snap))
-            self.joined = True
+            # (a savepoint does not make a connection that has changed
+            # nothing take part in the transaction)
             return 'savepoint'
         if k == 'rollback':
             j = op[1]
-            sp, (snap, rd) = self.handles[j]
+            sp, (snap, rd, was_joined) = self.handles[j]
             sp.rollback()
+            # a connection that joined after the savepoint is aborted by
+            # the rollback and no longer takes part
+            self.joined = was_joined
             for n in m:
                 cur_value = m[n].value
                 cur_committed = (m[n].committed, m[n].c_in_root,
